@@ -132,7 +132,7 @@ var specs = map[string]*Spec{
 		Quick:      TierParams{Runs: 1600, RaceRuns: 160, Budget: 6 * time.Minute},
 		Thorough:   TierParams{Budget: 20 * time.Minute},
 		Level:      "exploration",
-		Rule: "each plan is one TranslatePackages invocation: 1-9 package patterns (subset, order and repetition drawn from the seed) out of /repo's 13 example packages or out of a scratch module holding every file of testdata/negative-tests as its own (failing) package plus copies of three example packages and hand-written synthetic packages (forward references across files, errors in several files, a struct shared by a defining and an importing package, FFI reached through a third package, two packages with seven conversion errors each, a package with a type error in each of three files, an importer of a package that does not compile), a flag combination (TypeCheck, AddSourceFileComments, SkipInterfaces), the value runtime.GOMAXPROCS(0)/NumCPU report to the code under test (1,2,4,16,64 or the default 8), a scheduling strategy for the per-package worker goroutines (uniform / sticky / PCT over all steps / PCT over synchronisation points only / demotion at rarely executed sites; yield at every function entry of the translator and printer, before every statement of cmd/goose, before and after every sync.Map operation) and a permutation for every map range. " +
+		Rule: "each plan is one TranslatePackages invocation: 1-9 package patterns (subset, order and repetition drawn from the seed) out of /repo's 13 example packages or out of a scratch module holding every file of testdata/negative-tests as its own (failing) package plus copies of three example packages and hand-written synthetic packages (forward references across files, errors in several files, a struct shared by a defining and an importing package, FFI reached through a third package, two packages with seven conversion errors each, a package with a type error in each of three files, an importer of a package that does not compile, a package whose name differs from its directory and its importer), a flag combination (TypeCheck, AddSourceFileComments, SkipInterfaces), the value runtime.GOMAXPROCS(0)/NumCPU report to the code under test (1,2,4,16,64 or the default 8), a scheduling strategy for the per-package worker goroutines (uniform / sticky / PCT over all steps / PCT over synchronisation points only / demotion at rarely executed sites; yield at every function entry of the translator and printer, before every statement of cmd/goose, before and after every sync.Map operation) and a permutation for every map range. " +
 			"Oracle: for every package byte-identical file text and identical error string compared with a golden translation of that package alone, produced by a FRESH PROCESS (the instrumented cmd/goose on the sequential schedule), in the slot of that package; no panic, no deadlock; in the -race build no race report. All patterns of a module come from one real multi-pattern load (shared import graph); 1/12 of the scratch plans reload afresh with each package's files handed to the parser in a permuted order; 1/16 of the plans run the instrumented cmd/goose binary itself under the simulated scheduler (exit status, stderr, written files; the output directory may already hold an earlier, longer output); boolean flags that the built command lists in its usage text and the shipped command does not have are passed at random in those plans (then one plan in four is a binary plan, and stderr is not compared because what such a flag prints is not constrained); in the race flavour the simulated command is a -race build and a report with a frame under the tree that does not involve the scheduler goroutine is a violation. " +
 			"Non-trivial: at least two packages were co-translated and their workers were actually interleaved (more context switches than workers); distinct = distinct event-log fingerprints among those.",
 		Components: map[string]string{"goose.go types.go idents.go errors.go interface.go internal/coq/coq.go": "real (compiled from /repo's working tree, yields at function entries, go statement and map ranges routed through the simulator)",
@@ -163,7 +163,7 @@ var specs = map[string]*Spec{
 		Level:    "fault_enumeration",
 		Rule: "plan index mod 8 == 7 is batch (e), mod 4 == 3 batch (d), the others go by plan index mod 3. (a) reopen: prior image absent or of length 0,1,n,n*4096-1,4095,4096,4097,n*4096,n*4096+1,(n+3)*4096,random bytes (n = requested blocks), then 1-4 rounds of NewFileDisk(n_i)/operations/Close with n_i varying; after every open Size, every retained whole block and every new block (must be zero, read with Read and with ReadTo into a dirty buffer) are checked; every 15th plan on the real kernel. " +
 			"(b) power crash: for a seeded plan with Barriers on an existing image, EVERY crash point (before each system call of the round) is executed, survivors chosen per the durability model, then reopen and compare every block not written since the last completed Barrier. " +
-			"(c) single-fault enumeration: for a seeded plan EVERY system call x EVERY applicable fault (errno on openat/fstat/ftruncate/pread/pwrite/fsync/close; short pread 0/512; short pwrite 0/512; ENOSPC) is executed; the operation must panic/return an error or all later data must be exact; prior images of every length class, with a length/contents scan when a fault fired inside NewFileDisk that reported success; plus 6 sampled double faults per plan and, for the crash batch, every fsync failing (EIO) combined with crash points after it. (d) concurrent flush failure: 3-5 client tasks write their own block and call Barrier under seeded schedules while one fsync, or every fsync from some point on, fails (flushes take 1 ms of simulated time in 2/3 of the plans); then a power failure loses every unsynced write; a client whose Barrier returned normally must find its value after reopening. (e) concurrent readers under a failing read: 2-4 reader tasks Read/ReadTo blocks of a prior image under seeded schedules while one pread, or every pread from some point on, fails with EIO or comes back short (0, 512, 4095 bytes): a call that returns normally must have produced the block. In (c) a system call the shipped code never makes (fallocate, fdatasync, read, write, lseek, ...) gets a default menu, so a tree that starts using it has its failures injected as well. " +
+			"(c) single-fault enumeration: for a seeded plan EVERY system call x EVERY applicable fault (errno on openat/fstat/ftruncate/pread/pwrite/fsync/close; short pread 0/512; short pwrite 0/512; ENOSPC) is executed; the operation must panic/return an error or all later data must be exact; prior images of every length class, with a length/contents scan when a fault fired inside NewFileDisk that reported success; plus 6 sampled double faults per plan and, for the crash batch, every fsync failing (EIO) combined with crash points after it. (d) concurrent flush failure: 3-5 client tasks write their own block and call Barrier under seeded schedules while one fsync, or every fsync from some point on, fails (flushes take 1 ms of simulated time in 2/3 of the plans); then a power failure loses every unsynced write; a client whose Barrier returned normally must find its value after reopening. (e) concurrent readers under a failing read: 2-4 reader tasks Read/ReadTo blocks of a prior image under seeded schedules while one pread, or every pread from some point on, fails with EIO or comes back short (0, 512, 4095 bytes): a call that returns normally must have produced the block. In (c) a system call the shipped code never makes (fallocate, fdatasync, read, write, lseek, ...) gets a default menu, so a tree that starts using it has its failures injected as well; transfers that stay short (1000 or 0 bytes) from the first, second or third pwrite/pread on are injected too. " +
 			"Non-trivial: (a) a reopen or prior image was involved, (b,c) the crash/fault fired inside an operation; distinct = distinct concrete plans (plan + fault position/kind).",
 		Components:   machComponents,
 		Assumptions:  []string{"crash model: durable = fsynced data + journal prefix; unsynced writes persist in any subset, the last possibly torn at 512 bytes; an fsync that fails with EIO drops the data that was dirty from write-back for good (Linux semantics), and a loss that a Barrier reported by panicking counts as reported; real ext4 behaviour cannot be observed in this VM", "the image file's directory entry is durable before the crash batch starts (fsync of the parent directory is outside C11)"},
@@ -192,7 +192,7 @@ var specs = map[string]*Spec{
 		Level:    "fault_enumeration",
 		Rule: "every 8th plan is batch (4), the others go by plan index mod 4. (0,1) crash-point enumeration on DirFs over the simulated kernel: prior state = destination absent or old content (0..5000 bytes), optionally a leftover name.tmp of an interrupted earlier call (shorter, equal or longer than the new data; planted at the root and beside the destination), data of 0,1,100,4096 or 70000 bytes, write(2) limited to a few bytes per call in half of the plans; EVERY crash point (before each system call of the call) is executed in strict or ordered journal mode, crash survivors chosen per the durability model, remounted and read: the destination must be the previous state or exactly the data; then a fresh fault-free AtomicCreate over whatever was left behind must yield exactly its data. " +
 			"(2) single-fault enumeration: EVERY system call of the call x {errno (EACCES/ENOSPC/EIO), short write of 1 or half the bytes}: the call panics or returns; the destination is old-or-new at that moment and exactly new if it returned; then the fresh call as above; every fsync of the call is additionally failed with EIO and followed by a power failure 1..8 system calls later (whatever the call did after the failure -- gave up, retried, renamed -- the name holds the old or the new contents), and the crash batch also crashes right after the call has returned. In (0,1,2), after EVERY system call of the call (and of the fresh call that follows an interrupted one) the destination as any other process would see it must be the previous state or exactly the data (ac.instant.partial). " +
-			"In a third of the plans with at least 4096 bytes the data contains an aligned all-zero block. (3) concurrency: 1-3 creator tasks (independent names / same name in different directories / same name in one directory / independent destinations whose directory and name collide when joined by a separator, e.g. d0 + a-x and d0-a + x / the names x and x.tmp) plus a reader task under seeded schedules, on DirFs (2/3) or MemFs (1/3): every read sees the old state or one creator's complete data, no creator panics, each destination ends as the complete data of one of its creators. (4) sequential histories centred on AtomicCreate (AtomicCreate / Delete / Create+Append / Link / Open+ReadAt over 1-3 directories, on MemFs and DirFs) checked operation by operation and re-read at the end: a completed call stays exact under later unrelated operations. " +
+			"In a third of the plans with at least 4096 bytes the data contains an aligned all-zero block; in a sixth of the crash plans the leftover staging file already holds exactly the data, unflushed. (3) concurrency: 1-3 creator tasks (independent names / same name in different directories / same name in one directory / independent destinations whose directory and name collide when joined by a separator, e.g. d0 + a-x and d0-a + x / the names x and x.tmp) plus a reader task under seeded schedules, on DirFs (2/3) or MemFs (1/3): every read sees the old state or one creator's complete data, no creator panics, each destination ends as the complete data of one of its creators. (4) sequential histories centred on AtomicCreate (AtomicCreate / Delete / Create+Append / Link / Open+ReadAt over 1-3 directories, on MemFs and DirFs) checked operation by operation and re-read at the end: a completed call stays exact under later unrelated operations. " +
 			"Non-trivial: a fault/crash fired inside the call or a leftover temp file existed (0-2), operations overlapped (3); distinct = distinct concrete plans resp. event-log fingerprints.",
 		Components:   machComponents,
 		Assumptions:  []string{"crash model: durable = fsynced data + journal prefix (strict: fsync(file) forces only that file; ordered: also all earlier metadata); unsynced writes persist in any subset, possibly torn; an fsync that fails with EIO drops the data that was dirty from write-back for good (a retried fsync that returns 0 has flushed nothing)", "visibility after a crash is what a remounted DirFs reads"},
@@ -217,7 +217,7 @@ var specs = map[string]*Spec{
 		Rule: "each plan is one sync.Cond, a sequence of 1-3 machine.WaitTimeout calls (timeouts 0,1,2,10,100,10000,2^32 ms or random < 300 ms; optional pauses with the lock released between calls) and 0-4 concurrent events at distinct simulated instants aimed before / just before / just after / long after a timeout: Signal, Broadcast, or a plain cond.Wait waiter; executed with the real machine.WaitTimeout -> primitive.WaitTimeout, real sync and time under testing/synctest's fake clock (go1.26.8). " +
 			"Oracles against an ideal timed wait on a FIFO condition variable: returns holding the lock (TryLock fails), within 1 ms of simulated time after the timeout, within 1 ms after the Broadcast/Signal that reaches it, never panics, the bubble drains. Every 64th plan is the auxiliary, non-simulation assertion set for the three pure clauses (UInt64ToString, MapClear, Assume/Assert); it is not counted as non-trivial. " +
 			"A third of the plans is the perturb batch: events tie with call starts/expiries, runtime.Gosched nudges are spliced into machine/prims.go, order is recovered from stamps taken under the mutex; its outcome is the Go runtime's choice, so its replays reproduce with high probability only. " +
-			"The sim flavour runs the same kind of plans (ties included) on a second driver in which machine/prims.go AND the primitive dependency's prims.go are compiled with sync->simsync, time->simtime, channels and select->simchan, go->simrt.Go and a yield before every statement, under the deterministic simrt scheduler: every interleaving between caller, helper goroutine, timer and signallers and every tie is decided by the tape and replays exactly; a quarter of the sim plans spread calls and events over two condition variables (half of those with their own mutexes, half sharing one), and a third inject stalls (one yield in 8/40/200 advances the clock by 1 ns..10 ms while the task stands still; the time bounds grow by the stall time injected while the call was waited for); every 8th sim plan is instead 2-3 concurrent callers of machine.UInt64ToString on a few numbers that alias under power-of-two and decimal reductions, each result compared with strconv.FormatUint (a shared cache or buffer inside the primitive would make the clause schedule-dependent). " +
+			"The sim flavour runs the same kind of plans (ties included) on a second driver in which machine/prims.go AND the primitive dependency's prims.go are compiled with sync->simsync, time->simtime, channels and select->simchan, go->simrt.Go and a yield before every statement, under the deterministic simrt scheduler: every interleaving between caller, helper goroutine, timer and signallers and every tie is decided by the tape and replays exactly; a quarter of the sim plans spread calls and events over two condition variables (half of those with their own mutexes, half sharing one), some let a signaller hold the lock across a full second of a ten-second wait before it signals, and a third inject stalls (one yield in 8/40/200 advances the clock by 1 ns..10 ms while the task stands still; the time bounds grow by the stall time injected while the call was waited for); every 8th sim plan is instead 2-3 concurrent callers of machine.UInt64ToString on a few numbers that alias under power-of-two and decimal reductions, each result compared with strconv.FormatUint (a shared cache or buffer inside the primitive would make the clause schedule-dependent). " +
 			"Non-trivial: at least one concurrent event or more than one call (synctest), more than three context switches (sim); distinct = distinct (plan, observed return times) resp. event-log fingerprints.",
 		Components: map[string]string{"machine/prims.go WaitTimeout": "real", "github.com/goose-lang/primitive v0.1.0 WaitTimeout": "real", "sync.Cond, sync.Mutex, goroutines": "real", "time (clock, timers)": "stub: testing/synctest fake clock of go1.26.8; goroutine choice inside the bubble is the Go runtime's (events are placed at distinct instants so that it cannot change the outcome)",
 			"sim flavour": "machine/prims.go and primitive@v0.1.0/prims.go real, statement-level yields; sync, time, channels/select, goroutine scheduling are stubs (simsync, simtime, simchan, simrt)"},
@@ -231,7 +231,7 @@ var specs = map[string]*Spec{
 		Quick:    TierParams{Runs: 12000, RaceRuns: 2000, Budget: 5 * time.Minute},
 		Thorough: TierParams{Budget: 15 * time.Minute},
 		Level:    "exploration",
-		Rule: "plans: 1-2 directories, a sequential setup (a stable file, sometimes a victim file), then 2-4 client tasks with 9-12 operations in total, biased toward collisions: Create/Create and Create/Link of one name, Append through a creator's descriptor while others Open/ReadAt the file, Delete of the victim by one client, AtomicCreate (one client per name; concurrent AtomicCreates belong to C13), List during changes, appends of up to 9000 bytes, a directory created by one client while the others run; in a fifth of the plans a name that one client creates while another deletes it and creates it again; the slice List returns is overwritten by the caller; appends of up to 70000 bytes; in a fifth of the plans a log file whose one descriptor, opened by the setup, all clients append through; in a third of the DirFs plans stalls move the simulated clock, and with it the time stamps the kernel puts on files and directories; MemFs in 2/3 of the plans, DirFs on the simulated kernel in 1/3 (getdents limited to 1-2 entries per call in half of those; DirFs.List is judged by the sandwich oracle). " +
+		Rule: "plans: 1-2 directories, a sequential setup (a stable file, sometimes a victim file), then 2-4 client tasks with 9-12 operations in total, biased toward collisions: Create/Create and Create/Link of one name, Append through a creator's descriptor while others Open/ReadAt the file, Delete of the victim by one client, AtomicCreate (one client per name; concurrent AtomicCreates belong to C13), List during changes, appends of up to 9000 bytes, a directory created by one client while the others run; in a fifth of the plans a name that one client creates while another deletes it and creates it again; the slice List returns is overwritten by the caller; appends of up to 70000 bytes; Mkdir of a directory that exists (MemFs); in a fifth of the plans a log file whose one descriptor, opened by the setup, all clients append through; in a third of the DirFs plans stalls move the simulated clock, and with it the time stamps the kernel puts on files and directories; MemFs in 2/3 of the plans, DirFs on the simulated kernel in 1/3 (getdents limited to 1-2 entries per call in half of those; DirFs.List is judged by the sandwich oracle). " +
 			"Each plan runs under one seeded schedule with yields before every statement, at every lock operation and system call; after the clients join every touched name is read back. The whole history (invoke/return stamped with event sequence numbers) is checked with porcupine against the filesystem model (descriptors by handle), plus: descriptors open at the same time are distinct, no deadlock, and in the -race build no race report. " +
 			"Non-trivial: two operations of different clients overlapped in time; distinct = distinct event-log fingerprints among those.",
 		Components:   machComponents,
@@ -245,7 +245,7 @@ var specs = map[string]*Spec{
 		Quick:    TierParams{Runs: 24000, RaceRuns: 3000, Budget: 5 * time.Minute},
 		Thorough: TierParams{Budget: 15 * time.Minute},
 		Level:    "exploration",
-		Rule: "plans: 2-4 client tasks x 1-5 ops (Read/ReadTo/Write/Size; written contents are unique ids, in a third of the plans a two-value alphabet plus zero, in a quarter unique ids laid out with zero stretches so that contents agree on a prefix or suffix) over 1-3 addresses of a 1-3 block MemDisk (2/3 of plans) or FileDisk on the simulated kernel (1/3), " +
+		Rule: "plans: 2-4 client tasks x 1-5 ops (Read/ReadTo/Write/Size; written contents are unique ids, in a third of the plans a two-value alphabet plus zero, in a quarter unique ids laid out with zero stretches so that contents agree on a prefix or suffix) over 1-3 addresses of a 1-3 block (one plan in six: a 17-130 block disk, addresses a power of two apart, one client writing 34-70 blocks in a row while the others keep reading) MemDisk (2/3 of plans) or FileDisk on the simulated kernel (1/3), " +
 			"each executed under one seeded schedule (uniform / sticky 1/2,1/8,1/32 / PCT d=1..3) with yields before every statement, at every lock operation, system call and in the middle of every block copy. " +
 			"A run is non-trivial when at least two operations of different clients overlapped in time on one address and one of them was a write; distinct = distinct event-log fingerprints (FNV-64 over every scheduler event) among those.",
 		Components:   machComponents,
